@@ -15,26 +15,36 @@ pub enum Src {
   Padded(u32),
   /// alloc_bytes(cap) served from a recycled segment (accessible range starts 8 bytes into the buffer range)
   Recycled(u32),
+  /// the same with a large minimum segment size: the segment is 24 bytes longer than the request and the
+  /// remainder is not split off, so the buffer range ends 16 bytes behind the accessible range
+  Slack(u32),
 }
 
 struct Case<A: Subject> {
   arena: Box<A>,
   dof: usize,
+  /// the pattern-filled allocations in front of and behind the buffer under test
+  neighbours: Vec<(usize, usize)>,
 }
 
 /// Build an arena and return a buffer of `cap` bytes from `src`, followed by a live pattern-filled
 /// neighbour so that any write past the end is visible.
 fn make<A: Subject>(src: Src, cap: u32, owned: bool) -> Option<(Case<A>, Box<dyn BufLike>)> {
-  let cfg = Cfg::new(Fl::Optimistic, Backend::Vec, true, 256);
+  let mut cfg = Cfg::new(Fl::Optimistic, Backend::Vec, true, 256);
+  if matches!(src, Src::Slack(_)) {
+    cfg.min_seg = 40;
+  }
   let arena: Box<A> = Box::new(build::<A>(&cfg, None).ok()?);
   let a: &'static A = unsafe { &*(&*arena as *const A) };
   let dof = cfg.data_offset();
+  let neighbours = std::cell::RefCell::new(vec![]);
   let keep = |n: u32| {
     if n > 0 {
       let mut b = a.alloc_bytes(n).unwrap();
       unsafe { b.detach() };
       let (o, c, ..) = meta_of(&b);
       unsafe { std::ptr::write_bytes(a.raw_mut_ptr().add(o), 0xEE, c) };
+      neighbours.borrow_mut().push((o, c));
     }
   };
   let b: Box<dyn BufLike> = match src {
@@ -57,6 +67,23 @@ fn make<A: Subject>(src: Src, cap: u32, owned: bool) -> Option<(Case<A>, Box<dyn
         Box::new(RefB(a.alloc_aligned_bytes::<u64>(cap - 8).ok()?))
       }
     }
+    Src::Slack(r) => {
+      keep(r);
+      // the block must itself be listable: cap + 32 bytes hold a node and at least the minimum of 40
+      let mut blk = a.alloc_bytes(cap.max(16) + 32).ok()?;
+      unsafe { blk.detach() };
+      let bm = meta_of(&blk);
+      drop(blk);
+      keep(a.remaining() as u32);
+      unsafe { a.dealloc(bm.2 as u32, bm.3 as u32) };
+      let b: Box<dyn BufLike> = if owned { Box::new(OwnedB(a.alloc_bytes_owned(cap).ok()?)) } else { Box::new(RefB(a.alloc_bytes(cap).ok()?)) };
+      // not a case if the remainder was split off after all
+      let m = b.meta();
+      if m.2 + m.3 <= m.0 + m.1 {
+        return None;
+      }
+      b
+    }
     Src::Recycled(r) => {
       // [r bytes][block of cap+8+r' ..][rest] ; free the block, exhaust fresh space, allocate cap from the list
       keep(r);
@@ -75,7 +102,8 @@ fn make<A: Subject>(src: Src, cap: u32, owned: bool) -> Option<(Case<A>, Box<dyn
   };
   // neighbour after the buffer (fresh sources only have free space behind them otherwise)
   keep((a.remaining() as u32).min(24));
-  Some((Case { arena, dof }, b))
+  let neighbours = neighbours.into_inner();
+  Some((Case { arena, dof, neighbours }, b))
 }
 
 /// the generated method family, uniformly over the two handle types
@@ -282,6 +310,20 @@ fn run_case<A: Subject>(ctx: &Ctx, only: Option<&str>) -> u64 {
     Some((c, b))
   };
   let want = |m: &str| only.map(|o| o == m).unwrap_or(true);
+  // the buffer under test is what was asked for: `cap` accessible bytes that belong to nobody else
+  if let Some((c, b)) = make::<A>(ctx.src, ctx.cap, ctx.owned) {
+    let (off, bcap, ..) = b.meta();
+    evals += 1;
+    if bcap != cap {
+      ctx.bad("capacity-differs-from-request", "alloc", format!("a buffer of {} bytes was requested ({:?}), capacity() = {}", cap, ctx.src, bcap));
+    }
+    for (o, n) in &c.neighbours {
+      if bcap > 0 && off < o + n && *o < off + bcap {
+        ctx.bad("buffer-overlaps-neighbour", "alloc", format!("accessible range [{},{}) shares bytes with the live allocation [{},{})", off, off + bcap, o, o + n));
+        break;
+      }
+    }
+  }
   for len in 0..=cap {
     // ---- fixed-width integers
     for (ty, size, _signed) in INT_TYPES {
@@ -712,9 +754,9 @@ pub fn check(tier: Tier) -> i32 {
   let maxcap = if thorough { 24 } else { 20 };
   let mut items = vec![];
   for cap in 0..=maxcap {
-    let mut srcs = vec![Src::Fresh(0), Src::Fresh(1), Src::Padded(1), Src::Recycled(0)];
+    let mut srcs = vec![Src::Fresh(0), Src::Fresh(1), Src::Padded(1), Src::Recycled(0), Src::Slack(0)];
     if thorough {
-      srcs.extend([Src::Fresh(3), Src::Fresh(7), Src::Padded(3), Src::Padded(5), Src::Recycled(1), Src::Recycled(4)]);
+      srcs.extend([Src::Fresh(3), Src::Fresh(7), Src::Padded(3), Src::Padded(5), Src::Recycled(1), Src::Recycled(4), Src::Slack(3)]);
     }
     for src in srcs {
       for owned in [false, true] {
@@ -776,6 +818,7 @@ pub fn replay(case: &serde_json::Value) -> i32 {
       match k.as_str() {
         "Fresh" => Src::Fresh(n),
         "Padded" => Src::Padded(n),
+        "Slack" => Src::Slack(n),
         _ => Src::Recycled(n),
       }
     }
